@@ -113,3 +113,9 @@ Definition chk_wint8 (c : bool * Q * Z * list (Q * Q * Z)) : bool :=
                     match write_cell QO mwm smin (1 # 2)%Q (W, A) with
                     | Some x => write_pixel_i8 QO x =? outi
                     | None => fill =? outi end) cells.
+
+(* ---- DaskEWAResampler._get_rows_per_scan observed for (keyword, attrs, rows): exact; None = ValueError *)
+Definition oz_eqb (a b : option Z) : bool :=
+  match a, b with Some x, Some y => x =? y | None, None => true | _, _ => false end.
+Definition chk_rps (c : option Z * option Z * Z * option Z) : bool :=
+  let '(kw, attr, n, e) := c in oz_eqb (get_rows_per_scan kw attr n) e.
